@@ -3,6 +3,7 @@ import QuriVerif.Model.C01
 import QuriVerif.Generated.C01Templates
 import QuriVerif.Generated.C01Ladders
 import QuriVerif.Generated.C01Tables
+import QuriVerif.Model.StdEnv
 namespace QV.Driver
 open QV QV.C01
 
@@ -33,7 +34,7 @@ def parsePass (s : String) : Option Pass :=
   | ["ladder", alt, names] => (parseNat? alt).map fun a => .ladder (parseStrs names) a
   | ["clifConv", ks] => some (.clifConv (parseKinds ks))
   | ["idElim"] => some .idElim
-  | ["idInsert"] => some .idInsert
+  | ["idInsert", n] => (parseNat? n).map .idInsert
   | ["pauliDec"] => some .pauliDec
   | ["pauliRotDec"] => some .pauliRotDec
   | ["um1"] => some .um1
@@ -51,23 +52,19 @@ def showPass : Pass → String
   | .normalize lo => s!"normalize:{lo}"
   | .ladder names alt => s!"ladder:{alt}:{joinWith "," names}"
   | .clifConv ks => s!"clifConv:{showKinds ks}"
-  | .idElim => "idElim" | .idInsert => "idInsert" | .pauliDec => "pauliDec" | .pauliRotDec => "pauliRotDec"
+  | .idElim => "idElim" | .idInsert n => s!"idInsert:{n}" | .pauliDec => "pauliDec" | .pauliRotDec => "pauliRotDec"
   | .um1 => "um1" | .um2 => "um2" | .cnotRzRzz => "cnotRzRzz" | .cliffApprox => "cliffApprox"
   | .rotConv r f => s!"rotConv:{showKinds r}:{showKinds f}"
   | .gateSetConv ks v => s!"gateSetConv:{if v then "1" else "0"}:{showKinds ks}"
 
-def c01Env (n : Nat) : Env :=
-  { templates := QV.Gen.C01.templates, ladders := QV.Gen.C01L.ladders,
-    clifTable := QV.Gen.C01T.equivCliffordTable, cliff1q := QV.Gen.C01T.cliff1q,
-    chc := QV.Gen.C01T.chcTemplate, nqubits := n }
 
 /-- `c01pass <nq> | <pass;pass;...> | <circuit>` -/
 def c01pass (args : String) : String :=
   match args.splitOn "|" with
   | [nq, ps, circ] =>
     match parseNat? nq, (ps.trimAscii.toString.splitOn ";").mapM parsePass, parseCircuit circ with
-    | some n, some passes, some c =>
-      match runSeq (c01Env n) (passes.length + 200) passes c with
+    | some _, some passes, some c =>
+      match runSeq stdEnv stdFuel passes c with
       | .ok r => "ok " ++ showCircuit r
       | .error m => "err " ++ m
     | _, _, _ => "bad-request"
